@@ -293,8 +293,13 @@ def check_tables(run, bins, cases, tag, st):
         if c["real"] == "deny":
             m = re.match(r'^permission for table "(.*)" denied$', c["real_msg"], re.S)
             real_t = m.group(1).encode() if m else b"?"
-        if (model is None) != (c["real"] != "deny") or (model is not None and model != real_t):
-            run.violation("tie-broken", "table_access model and implementation disagree on %r: model %r, impl %r %r" % (c["sql"], model, c["real"], real_t),
+        # the property's own predicate on the implementation's answer (PostgreSQL's rule on the generator's labels): when it
+        # fails the input is a counterexample and is reported as such further down, whatever the model says
+        resp0 = [nm for nm in c["labels"] if pg_resolve(*nm[-1]) in c["listed"]]
+        prop_fail = (c["enabled"] and bool(resp0) and c["real"] != "deny" and not known_class(c, resp0)) or \
+                    (not (c["enabled"] and bool(resp0)) and c["real"] == "deny")
+        if not prop_fail and ((model is None) != (c["real"] != "deny") or (model is not None and model != real_t)):
+            run.violation("tie-broken", "table_access model and implementation disagree on %r (the answer still satisfies the property): model %r, impl %r %r" % (c["sql"], model, c["real"], real_t),
                           {"correspondence": "Plugin/Model.v ta_verdict vs TableAccess::run", "input": inp, "model": str(model), "impl": [c["real"], c["real_msg"]],
                            "shown": {"explicit": str(c["explicit"]), "visited": str(c["visited"])}}, found_input=False)
             return evals
@@ -304,7 +309,7 @@ def check_tables(run, bins, cases, tag, st):
         # L2: every mentioned relation is shown to the plugin
         shown = c["explicit"] + c["visited"]
         missing = [nm for nm in c["labels"] if nm not in shown]
-        if missing and not c["gap"]:
+        if missing and not c["gap"] and not (not expect_deny and c["real"] == "deny"):
             run.violation("tie-broken" if not (expect_deny and c["real"] != "deny") else "counterexample",
                           "sqlparser does not show the plugin relation %s of %r" % (missing[0], c["sql"]),
                           {"correspondence": "visit_relations reports every mentioned relation", "input": inp, "missing": str(missing)},
@@ -527,6 +532,39 @@ def expected_reply(case, norms):
     return out + [("Z", b"I")]
 
 
+def property_of_message(c, stmts):
+    """what the property says about one message, independent of the Coq model: matches an intercept rule (enabled) => exactly
+    the configured rows; else names a listed table (table_access enabled; PostgreSQL's rule on the relations of the parsed
+    statement) => deny; else (and with plugins absent/disabled) => allow.  Returns (kind, rows-or-None)."""
+    pl = c["plugins"] or {}
+    ic, ta = pl.get("intercept"), pl.get("table_access")
+    if ic and ic["enabled"]:
+        exp = expected_reply(c, [bytes.fromhex(z["norm"]) for z in stmts])
+        if exp is not None:
+            return "intercept", exp
+    if ta and ta["enabled"]:
+        listed = {t.encode() for t in ta["tables"]}
+        for z in stmts:
+            for nm in names_from_json(z["explicit"]) + names_from_json(z["visited"]):
+                if nm and pg_resolve(*nm[-1]) in listed:
+                    return "deny", None
+    return "allow", None
+
+
+def property_failure(c, stmts, real):
+    """None if the implementation's answer satisfies the property, else a sentence"""
+    kind, exp = property_of_message(c, stmts)
+    if kind == "intercept":
+        got = read_backend(bytes.fromhex(real[1])) if real[0] == "intercept" else None
+        if got != exp:
+            return "matches an intercept rule but is answered with %s instead of exactly the configured rows" % ("other rows" if real[0] == "intercept" else real[0])
+    elif kind == "deny" and real[0] != "deny":
+        return "names a listed table but is answered with %s instead of the permission error" % real[0]
+    elif kind == "allow" and real[0] != "allow":
+        return "matches no intercept rule and names no listed table but is answered with %s" % real[0]
+    return None
+
+
 def check_intercept(run, bins, cases, st):
     pcases = [{"settings": {"parser": True, "plugins": c["plugins"], "user": c["user"], "db": c["db"]}, "steps": [{"proto": c["proto"], "sql": c["sql"]}]} for c in cases]
     pres = RL.run_router(bins["plugins"], pcases)
@@ -537,6 +575,7 @@ def check_intercept(run, bins, cases, st):
             st["rejected"] += 1
             continue
         c["real"] = po["plugin"]
+        c["stmts"] = po["stmts"]
         c["norms"] = [bytes.fromhex(s["norm"]) for s in po["stmts"]]
         stm = "; ".join("mkStmt %s %s %s" % (vlib.coq_bytes(bytes.fromhex(s["norm"])), coq_names(names_from_json(s["explicit"])), coq_names(names_from_json(s["visited"])))
                         for s in po["stmts"])
@@ -563,12 +602,17 @@ def check_intercept(run, bins, cases, st):
         model = [["allow", "deny", "intercept"][kind]]
         st["icpt_kinds"][model[0]] = st["icpt_kinds"].get(model[0], 0) + 1
         st["distinct"].add(("icpt", c["sql"], json.dumps(c["plugins"], sort_keys=True), c["user"], c["db"]))
+        pf = property_failure(c, c["stmts"], c["real"]) if c["real"][0] != "panic" else None
+        if pf:      # a concrete failing input of the property: report it as such, whatever the model says
+            run.violation("counterexample", "%r %s" % (c["sql"], pf),
+                          {"input": inp, "impl": real, "expected": property_of_message(c, c["stmts"])[0], "model": model[0]})
+            return evals
         if not same:
             try:    # print the model's value for the replay file (one value: small output)
                 model = [model[0], vlib.coq_eval("c19_icpt1", PRE, [c["expr"]])[0][:20000]]
             except Exception as ex:
                 model = [model[0], "?"]
-            run.violation("tie-broken", "execute_plugins model and implementation disagree on %r: model %s, impl %s" % (c["sql"], model[0], real[0]),
+            run.violation("tie-broken", "execute_plugins model and implementation disagree on %r (the answer still satisfies the property): model %s, impl %s" % (c["sql"], model[0], real[0]),
                           {"correspondence": "Plugin/Model.v execute_plugins vs QueryRouter::execute_plugins", "input": inp, "model": model, "impl": real}, found_input=False)
             return evals
         # monitor: the reply, read independently, is what the configuration says
@@ -1356,6 +1400,69 @@ def prepare_wire(seqs, plugins_bin):
     return out
 
 
+def py_effective(p, second=False):
+    """the section in force for a pool, read off the configuration by the documented precedence (pool section replaces the
+    global one, else inherited) - independent of the Coq model; in [oracle]'s format"""
+    g, pool, pool2 = p["sections"]
+    sec = (pool2 if second else pool)
+    sec = sec if sec is not None else g
+    if sec is None:
+        return None
+    ta, ic = sec["ta"], sec["ic"]
+    return (bool(ta and ta[0]), {t.encode() for t in ta[1]} if ta else set(), bool(ic and ic[0]),
+            {q.lower().encode() for q, _ in ic[1].values()} if ic else set())
+
+
+def wire_property_failure(c, rows, ex, p, back, groups, groups_b):
+    """The property's own statement on what was OBSERVED in one wire scenario, independent of the Coq model: a parsed statement
+    that names a listed table / matches an intercept rule (by the section in force for the pool) never reaches the server; a
+    rejected simple query is answered with the permission error / exactly the rule's rows; so is an extended batch at its
+    Sync (first rejected Parse of the batch).  Returns None or a sentence."""
+    if not c["parser_on"]:
+        return None
+    eff, eff2 = py_effective(p), py_effective(p, True)
+    nb = sum(1 for g in ex["client_b"] if g == ("other",))
+    for b in back[:len(back) - nb]:
+        if len(b) == 2 and oracle(b[1], eff) != ("Allow",):
+            return "the server received %s %r, which %s under the plugins section in force" % (
+                b[0], b[1], "names a listed table" if oracle(b[1], eff)[0] == "Deny" else "matches an intercept rule")
+    if ex["client_b"] and len(groups_b) == len(p["texts2"]):
+        for t, g in zip(p["texts2"], groups_b):
+            v = oracle(t, eff2)
+            want = ("other",) if v == ("Allow",) else (("plugin_error" if v[0] == "Deny" else "intercept"), v[1])
+            if (g == ("other",)) != (want == ("other",)) or (want != ("other",) and g != want):
+                return "in the second pool %r is answered with %s, the section in force there says %s" % (t, g, want)
+    gi, batch = 0, []
+    for (m, held, cur, evs), has_reply in zip(rows, ex["reply_ops"]):
+        g = None
+        if has_reply:
+            if gi >= len(groups):
+                return None         # replies missing: not a statement about verdicts
+            g = groups[gi]; gi += 1
+        if m[0] == "MQ" and m[2]:
+            v = oracle(p["base"][("Q", m[1])], eff)
+            if v != ("Allow",):
+                want = ("plugin_error" if v[0] == "Deny" else "intercept", v[1])
+                if g != want:
+                    return "the simple query %r %s but is answered with %s instead of %s" % (
+                        p["base"][("Q", m[1])], "names a listed table" if v[0] == "Deny" else "matches an intercept rule", g, want)
+            elif g and g[0] in ("plugin_error", "intercept") and batch:
+                batch = []          # an allowed query consumed the pending verdict of the buffered batch
+        elif m[0] == "MP":
+            batch.append(oracle(p["base"][("P", m[3])], eff) if m[4] else ("Allow",))
+        elif m[0] == "MS":
+            first = next((v for v in batch if v != ("Allow",)), None)
+            if first is not None:
+                want = ("plugin_error" if first[0] == "Deny" else "intercept", first[1])
+                if g != want:
+                    return "the batch ending at Sync %d holds a Parse that %s but is answered with %s instead of %s" % (
+                        m[1], "names a listed table" if first[0] == "Deny" else "matches an intercept rule", g, want)
+            batch = []
+        if any(e == "EvEnd" for e in evs):
+            break
+    return None
+
+
 def check_wire(run, n, st):
     """the Coq machine and the real Client::handle on the same message sequences, over the wire"""
     ok, blog, bins = vlib.cargo_build(["wire", "plugins"])
@@ -1373,6 +1480,7 @@ def check_wire(run, n, st):
         rows = [(msg_tuple(r[0]), r[1], r[2], r[3]) for r in pcoq(v)]
         sc, ex = build_wire_scenario(c, rows, p)
         ex["mode"] = p["mode"]
+        ex["prep"] = p
         st["wire_modes"][p["mode"]] = st["wire_modes"].get(p["mode"], 0) + 1
         scns.append(sc); exps.append(ex); metas.append((c, [r[0] for r in rows], rows))
     results = W.run_scenarios(bins["wire"], scns)
@@ -1411,11 +1519,15 @@ def check_wire(run, n, st):
         # cannot show up here), or a rejected text at the server that the model does not predict?
         leaked = [b for b in back if len(b) == 2 and b[1] in ex["rejected_texts"] and b not in ex["backend"]]
         inp = {"cfg": c, "plugins_sections": ex["mode"], "ops": [list(o) for o in ops], "steps": sc["steps"], "toml": sc["toml"]}
+        pf = wire_property_failure(c, rows, ex, ex["prep"], back, groups, groups_b)
         if leaked:
             run.violation("counterexample", "a statement the plugins rejected reached the server: %s" % (leaked[0],),
                           {"input": inp, "impl": {"backend": back, "client": groups}, "model": {"backend": ex["backend"], "client": ex["client"]}})
+        elif pf:        # the implementation's behaviour on this scenario fails the property text itself
+            run.violation("counterexample", "plugins sections %s, messages %s: %s" % (ex["mode"], json.dumps([m["msgs"] for m in sc["steps"] if m.get("op") == "send" and m.get("c") == "a"])[:600], pf),
+                          {"input": inp, "impl": {"backend": back, "client": groups, "client_b": groups_b}, "model": {"backend": ex["backend"], "client": ex["client"], "client_b": ex["client_b"]}})
         else:
-            run.violation("tie-broken", "Client::handle and the Coq machine disagree (plugins sections: %s) on %s: server saw %s (model %s), client got %s (model %s)%s%s" %
+            run.violation("tie-broken", "Client::handle and the Coq machine disagree (plugins sections: %s; the observed behaviour still satisfies the property) on %s: server saw %s (model %s), client got %s (model %s)%s%s" %
                           (ex["mode"], json.dumps([list(o) for o in ops]), back, ex["backend"], groups, ex["client"],
                            "; client of the second pool got %s (model %s)" % (groups_b, ex["client_b"]) if ex["client_b"] else "",
                            "" if hold_ok else " [pool holder could not get the server]"),
@@ -1720,6 +1832,6 @@ def replay(run, path):
     for s in o.get("stmts", []):
         print("  shown:", bytes.fromhex(s["norm"]).decode("utf8", "replace"), "explicit", names_from_json(s["explicit"]), "visited", names_from_json(s["visited"]))
     exp = r.get("expected")
-    if exp in ("deny", "allow"):
+    if exp in ("deny", "allow", "intercept"):
         return 0 if o.get("plugin", [None])[0] == exp else 1
     return 0
